@@ -2,13 +2,13 @@
 CHECK = {
     "level": "fault_enumeration",
     "exhaustive": True,
-    "rule": "for each request type (document create/update/delete, with attachment, granting/revoking access, user/role create/update/delete, session create/delete) a fault-free run records the request's storage-operation trace; then one run per (operation index, fault kind in {error before apply, CAS mismatch where the operation takes a CAS, persistent CAS mismatch = this and every later compare-and-swap of the request on that key loses (bounded retry loops run out), applied-then-timeout}); plus the zero-fault rows of every rejection kind; distinct_nontrivial = distinct (request type, fault site, index) actually injected",
+    "rule": "for each request type (document create/update/delete/resurrect/purge, one-row _bulk_docs, create/update/delete with attachment, attachment PUT/DELETE, update or delete granting/revoking access() and role() grants, import on read/write, user create/update (channels+e-mail, password, roles)/delete, role create/update/delete, session create/delete, _local document put/update/delete) a fault-free run records the request's storage-operation trace; then one run per (operation index, fault kind in {error before apply, CAS mismatch where the operation takes a CAS, persistent CAS mismatch = this and every later compare-and-swap of the request on that key loses (bounded retry loops run out), applied-then-timeout}); plus the zero-fault rows of every rejection kind; distinct_nontrivial = distinct (request type, fault site, index) actually injected",
     "parts": [
         {"name": "rest-faults", "pkg": "rest", "run": "^TestVerif_C11_Faults$", "timeout_q": 900, "timeout_t": 3000},
         {"name": "retry-chain", "pkg": "db", "run": "^TestVerif_C11_RetryChain$", "timeout_q": 400, "timeout_t": 1200},
     ],
     "min_evals": 100,
-    "min_counters": {"rest-faults.faults_injected": 24, "rest-faults.raw_keys_compared": 13},
+    "min_counters": {"rest-faults.faults_injected": 150, "rest-faults.raw_keys_compared": 100, "rest-faults.requests_failed_under_fault": 60, "rest-faults.requests_succeeded_despite_fault": 60},
     "assumptions": ["single faults of the listed request types on the request's own goroutine; pairs of faults in the thorough tier", "pre-state of every touched key captured through the un-hooked store at first touch", "allowed differences after a failed request: sequence counter, unused-sequence documents, unreferenced attachment / old-revision-body blobs (reported, not deciding)"],
 }
 
